@@ -140,3 +140,24 @@ func BlockAddrModule(nf, nb int) string {
 	}
 	return sb.String()
 }
+
+// EscapeModules returns n small modules in which every kind of quoted name and string carries backslash
+// escapes (each module with its own bytes): global, local, label, type, comdat and metadata names, section,
+// gc, partition, source_filename, module asm, inline asm, attribute strings, metadata strings, c"" arrays.
+func EscapeModules(n int) []Input {
+	var out []Input
+	for k := 0; k < n; k++ {
+		var sb strings.Builder
+		fmt.Fprintf(&sb, "source_filename = \"f\\22%d\\5C.c\"\n", k)
+		fmt.Fprintf(&sb, "module asm \"nop\\0A\\09%d\"\n", k)
+		fmt.Fprintf(&sb, "%%\"t\\20%d\" = type { i32, %%\"t\\20%d\"* }\n", k, k)
+		fmt.Fprintf(&sb, "$\"c\\20%d\" = comdat any\n", k)
+		fmt.Fprintf(&sb, "@\"g\\22%d\" = global %%\"t\\20%d\" zeroinitializer, section \"s\\5C%d\", comdat($\"c\\20%d\"), !k\\2E%d !0\n", k, k, k, k, k)
+		fmt.Fprintf(&sb, "@\"s\\01%d\" = constant [4 x i8] c\"a\\00\\22%d\"\n", k, k%10)
+		fmt.Fprintf(&sb, "define i32 @\"f\\5C%d\"(i32 %%\"p\\20%d\") #0 gc \"g\\22%d\" {\n\"e\\20%d\":\n  %%\"x\\22\" = add i32 %%\"p\\20%d\", %d\n  call void asm sideeffect \"nop\\0A%d\", \"~{memory}\"()\n  br label %%\"b\\5C%d\"\n\"b\\5C%d\":\n  ret i32 %%\"x\\22\"\n}\n", k, k, k, k, k, k, k, k, k)
+		fmt.Fprintf(&sb, "attributes #0 = { \"a\\22%d\"=\"v\\0A%d\" \"b\\5C%d\" }\n", k, k, k)
+		fmt.Fprintf(&sb, "!\\31n%d = !{!0}\n!0 = !{!\"m\\00%d\", !\"\\22q%d\"}\n", k, k, k)
+		out = append(out, Input{Name: fmt.Sprintf("escapes-%d.ll", k), Origin: "escapes", Text: sb.String()})
+	}
+	return out
+}
